@@ -523,7 +523,7 @@ class UniformTime(np.ndarray, TimeInterface):
     """
 
     def __new__(cls, data=None, length=None, duration=None, sampling_rate=None,
-                sampling_interval=None, t0=0, time_unit=None):
+                sampling_interval=None, t0=None, time_unit=None):
         """
 
         Parameters
@@ -607,12 +607,10 @@ class UniformTime(np.ndarray, TimeInterface):
                 sampling_rate = data.sampling_rate
                 duration = data.duration
             elif tspec == tspecs_w_data['sampling_interval']:
-                duration == data.duration
+                duration = data.duration
             elif tspec == tspecs_w_data['sampling_rate']:
-                if isinstance(sampling_rate, Frequency):
-                    sampling_interval = sampling_rate.to_period()
-                else:
-                    sampling_interval = 1.0 / sampling_rate
+                # The rate is in Hz whatever the time unit; the interval is
+                # derived from it below, like for any other rate:
                 duration = data.duration
             elif tspec == tspecs_w_data['length']:
                 duration = length * data.sampling_interval
@@ -623,6 +621,12 @@ class UniformTime(np.ndarray, TimeInterface):
                 # If the user didn't ask to change the time-unit, use the
                 # time-unit from the object you got:
                 time_unit = data.time_unit
+            if t0 is None:
+                # The new axis starts where the one it is built from starts:
+                t0 = data.t0
+
+        if t0 is None:
+            t0 = 0
 
         # Check that the time units provided are sensible:
         if time_unit not in time_unit_conversion:
